@@ -183,7 +183,13 @@ func checkGateState(c *checkCtx, prefix string) {
 					n := r.node
 					refused := len(n.Children) == 0
 					if refused && !errors.Is(n.Exit.Err, ratelimiter.ErrExceeded) {
-						return // cancelled while waiting: not modelled
+						if n.Exit.Flags&FIsCanceled == 0 {
+							c.fail(prefix+"limiter-admission", "error", fmt.Sprintf("exec %d: rate limiter %d ended the attempt requested at t=%v with %s although the execution was not cancelled", r.v.ID, pi, r.t, fmtErr(n.Exit.Err)))
+							return
+						}
+						// the wait was cancelled: the permit stays reserved, as in the model
+						c.cov("gate.limiter_wait_cancelled")
+						continue
 					}
 					if refused != (want == -1) {
 						c.fail(prefix+"limiter-admission", "refusal", fmt.Sprintf("exec %d: rate limiter %d %s the attempt requested at t=%v but the earliest admissible grant is %s", r.v.ID, pi, map[bool]string{true: "refused", false: "admitted"}[refused], r.t, waitStr(want)))
